@@ -1,6 +1,7 @@
 package main
 
 import (
+	"bytes"
 	stdjson "encoding/json"
 	"flag"
 	"fmt"
@@ -188,6 +189,33 @@ func charvecMain(args []string) int {
 			}
 			check(v, w, false)
 			detectCheck(v, w, len(w), 3072)
+		}
+		// text padding before / after, so that the bytes sit at different offsets of longer headers
+		// (word-at-a-time scanners): the byte-class verdict is unchanged by text bytes; a mark must stay first
+		if v.Bin || len(v.Bom) > 0 {
+			for _, k := range []int{0, 3, 7} {
+				if len(v.Bom) > 0 && k > 0 {
+					continue
+				}
+				w := append(append(bytes.Repeat([]byte("p"), k), raw...), []byte("0123456789abcdef tail")...)
+				if len(v.Bom) == 0 && startsLikeBOM(w) {
+					continue
+				}
+				pv := *v
+				w = exact(w)
+				if textDet(w, 3072) != v.Txt {
+					rep.violate(mkViolation("C07", "text-detector-padded", w, 3072, fmt.Sprintf("magic.Text=%v, byte-class predicate=%v", !v.Txt, v.Txt)))
+				}
+				m := mimetype.Detect(w)
+				evals++
+				ch := bareChain(m)
+				if contains(ch, "text/plain") && !pv.Txt {
+					rep.violate(mkViolation("C07", "text-in-chain-of-binary-header", w, 3072, "result "+m.String()))
+				}
+				if pv.Txt && len(ch) <= 1 {
+					rep.violate(mkViolation("C07", "text-header-unclassified", w, 3072, "result "+m.String()))
+				}
+			}
 		}
 		// ASCII prefix: exercises the last-three-bytes window on longer inputs (not for marks)
 		if len(v.Bom) == 0 && !v.Bin && len(raw) > 0 && !startsLikeBOM(raw) {
